@@ -87,7 +87,7 @@ def emit_sites(ctx):
     for dev in [base] + concrete_devices(ctx):
         for name in sorted({m for k in ctx.prog.mro(dev) if hasattr(k, "methods") for m in k.methods}):
             f = ctx.prog.find_method(dev, name)
-            if f is None or f.qualname in seen:
+            if f is None or f.qualname in seen or f.qualname in ctx.prog.inlined_helpers:
                 continue
             fv = ctx.fv(f, dev if f.cls is not None and f.cls in ctx.prog.mro(dev) else None)
             sites = []
